@@ -430,7 +430,8 @@ def tr_divide_by_n(fn):
         raise Unsupported('`if not self.divide_by_n: return x`')
     if not (isinstance(s1, ast.If) and ast.unparse(s1.test) == 'shape is None' and ast.unparse(s1.body[0]) == 'shape = x.shape' and not s1.orelse):
         raise Unsupported('`if shape is None: shape = x.shape`')
-    if not (isinstance(s2, ast.If) and ast.unparse(s2.test) == 'self.dim is not None' and len(s2.body) == 1 and len(s2.orelse) == 1):
+    # the size selection must treat None and an empty dim alike (all dimensions), as Model/TensorFunctionals.v nprox does (repair de813cf)
+    if not (isinstance(s2, ast.If) and ast.unparse(s2.test) == 'self.dim is not None and len(self.dim) > 0' and len(s2.body) == 1 and len(s2.orelse) == 1):
         raise Unsupported('size selection')
     a, b = s2.body[0], s2.orelse[0]
     if not (isinstance(a, ast.Assign) and fname(a.targets[0]) == 'size' and isinstance(a.value, ast.ListComp)):
